@@ -130,7 +130,7 @@ class Model:
 
     def target(self, op):
         _, q, name = op
-        Q = tuple(sorted([q] if isinstance(q, str) else list(q)))
+        Q = tuple(sorted(list(q) if isinstance(q, (list, tuple, set)) else [q], key=str))
         ch = self.pre.channels.get(name)
         if ch is None or ch.in_eom():
             return None
